@@ -7,6 +7,7 @@ VERUS_UNITS = {
     "u6_store": dict(template="units/u6_store.vrs", rlimit=120),
     "u7_glue": dict(template="units/u7_glue.vrs", rlimit=120),
     "u8_builder": dict(template="units/u8_builder.vrs", rlimit=80),
+    "u9_metrics": dict(template="units/u9_metrics.vrs", rlimit=80),
     "u19_async": dict(template="units/u19_async.vrs", rlimit=120),
     "u19_async_policy": dict(template="units/u19_async_policy.vrs", rlimit=120),
 }
@@ -29,34 +30,37 @@ REPLAY_GROUPS = {
     "ttl": dict(file="src/ttl.rs", include="replay/ttl.rs"),
     "policy": dict(file="src/policy/sync.rs", include="replay/policy.rs"),
     "cache": dict(file="src/cache/sync.rs", include="replay/cache.rs"),
+    # the async flavour's whole-cache oracle: derived mechanically from replay/cache.rs at run time (vx/replay.py::derive_async_oracle)
+    "async_sweep": dict(file="src/ttl.rs", include="replay/ttl.rs", derive="async-sweep", features=["full"]),
+    "async_cache": dict(file="src/cache/async.rs", include="replay/cache.rs", derive="async", features=["full"]),
 }
 
 PROPS = {
-    "C01": dict(units=["u4_policy", "u19_async_policy"], kani=[], replay=["policy", "cache"]),
-    "C07": dict(units=["u4_policy", "u1_estimator", "u19_async_policy"], kani=[], replay=["policy", "estimator", "cache"]),
+    "C01": dict(units=["u4_policy", "u19_async_policy"], kani=[], replay=["policy", "cache", "async_cache"]),
+    "C07": dict(units=["u4_policy", "u1_estimator", "u19_async_policy"], kani=[], replay=["policy", "estimator", "cache", "async_cache"]),
     "C13": dict(units=["u1_estimator"], kani=["bbloom"], replay=["estimator"]),
     "C14": dict(units=["u1_estimator"], kani=["bbloom"], replay=["estimator"]),
-    "C20": dict(units=["u1_estimator", "u8_builder", "u7_glue", "u19_async"], kani=["bbloom"], replay=["estimator", "cache"]),
-    "C02": dict(units=["u6_store", "u7_glue", "u19_async"], kani=[], replay=["ttl", "cache"]),
-    "C03": dict(units=["u6_store", "u7_glue", "u19_async"], kani=["ttl"], replay=["ttl"]),
-    "C04": dict(units=["u6_store", "u4_policy", "u7_glue", "u19_async", "u19_async_policy"], kani=["ttl"], replay=["ttl", "policy", "cache"]),
-    "C05": dict(units=["u6_store", "u4_policy", "u8_builder", "u19_async_policy"], kani=["ttl"], replay=["ttl"]),
-    "C09": dict(units=["u6_store", "u7_glue", "u19_async"], kani=[], replay=["ttl", "cache"]),
-    "C18": dict(units=["u6_store", "u7_glue", "u19_async"], kani=["keys"], replay=["ttl", "cache"]),
-    "C06": dict(units=["u7_glue", "u6_store", "u4_policy", "u19_async", "u19_async_policy"], kani=[], replay=["ttl", "policy", "cache"]),
-    "C08": dict(units=["u7_glue", "u6_store", "u19_async"], kani=[], replay=["ttl", "cache"]),
-    "C11": dict(units=["u7_glue", "u6_store", "u4_policy", "u1_estimator", "u19_async", "u19_async_policy"], kani=["histogram"], replay=["ttl", "estimator", "cache", "policy"],
+    "C20": dict(units=["u1_estimator", "u8_builder", "u7_glue", "u19_async"], kani=["bbloom"], replay=["estimator", "cache", "async_cache"]),
+    "C02": dict(units=["u6_store", "u7_glue", "u19_async"], kani=[], replay=["ttl", "async_sweep", "cache", "async_cache"]),
+    "C03": dict(units=["u6_store", "u7_glue", "u19_async"], kani=["ttl"], replay=["ttl", "async_sweep"]),
+    "C04": dict(units=["u6_store", "u4_policy", "u7_glue", "u19_async", "u19_async_policy"], kani=["ttl"], replay=["ttl", "async_sweep", "policy", "cache", "async_cache"]),
+    "C05": dict(units=["u6_store", "u4_policy", "u8_builder", "u19_async_policy"], kani=["ttl"], replay=["ttl", "async_sweep"]),
+    "C09": dict(units=["u6_store", "u7_glue", "u19_async"], kani=[], replay=["ttl", "async_sweep", "cache", "async_cache"]),
+    "C18": dict(units=["u6_store", "u7_glue", "u19_async"], kani=["keys"], replay=["ttl", "async_sweep", "cache", "async_cache"]),
+    "C06": dict(units=["u7_glue", "u6_store", "u4_policy", "u19_async", "u19_async_policy"], kani=[], replay=["ttl", "async_sweep", "policy", "cache", "async_cache"]),
+    "C08": dict(units=["u7_glue", "u6_store", "u19_async"], kani=[], replay=["ttl", "async_sweep", "cache", "async_cache"]),
+    "C11": dict(units=["u7_glue", "u6_store", "u4_policy", "u1_estimator", "u19_async", "u19_async_policy", "u9_metrics"], kani=["histogram"], replay=["ttl", "async_sweep", "estimator", "cache", "async_cache", "policy"],
                 probes=[("cache", "insert_after_clear_is_kept")]),
     "C15": dict(units=["u7_glue", "u1_estimator", "u8_builder", "u19_async"], kani=[], replay=["estimator"]),
-    "C16": dict(units=["u7_glue", "u4_policy", "u6_store", "u8_builder", "u19_async", "u19_async_policy"], kani=[], replay=["policy", "ttl", "cache"]),
-    "C17": dict(units=["u7_glue", "u4_policy", "u8_builder", "u19_async", "u19_async_policy"], kani=["histogram"], replay=["policy", "cache"]),
-    "C19": dict(units=["u19_async", "u19_async_policy", "u6_store"], kani=[], replay=[]),
+    "C16": dict(units=["u7_glue", "u4_policy", "u6_store", "u8_builder", "u19_async", "u19_async_policy"], kani=[], replay=["policy", "ttl", "async_sweep", "cache", "async_cache"]),
+    "C17": dict(units=["u7_glue", "u4_policy", "u8_builder", "u19_async", "u19_async_policy", "u9_metrics"], kani=["histogram"], replay=["policy", "cache", "async_cache"]),
+    "C19": dict(units=["u19_async", "u19_async_policy", "u6_store"], kani=[], replay=["async_cache", "ttl", "async_sweep"]),
 }
 
 ASSUMPTIONS = {
     "A-lock": "R6/R8: a critical section under parking_lot Mutex/RwLock is atomic w.r.t. every other access to the same data; the lock is erased and `&self` methods that write under it are verified as `&mut self`. Deadlock/contention are not modelled.",
     "A-atomic": "R10: SampledLFU.max_cost (AtomicI64) is treated as a plain i64 inside a critical section: every writer (LFUPolicy::update_max_cost) takes the policy mutex first.",
-    "A-metrics": "R9: Arc<Metrics> (striped AtomicU64 in a BTreeMap) is modelled as a ledger of unbounded integer counters; Metrics::add/is_op/track_eviction are trusted, not verified.",
+    "A-metrics": "R9: inside the policy/glue units Arc<Metrics> is modelled as a ledger of unbounded integer counters (prelude/metrics_model.rs). That model is no longer free-standing: unit u9_metrics verifies MetricsInner::{add,get,clear,track_eviction, 11 getters} and Metrics::{is_op,is_noop,add,clear,track_eviction} against 'counter of a type = sum of its 256 stripes' with the atomics erased (sequential execution) and BTreeMap::get as a trusted finite-map lookup. Still trusted: the correspondence ledger-model <-> u9 contracts is by matching clause text, MetricsInner::new (iterator chain + vec_to_array), sums stay below 2^64, the closure-taking Metrics::get_* wrappers (Metrics::map).",
     "A-hashmap": "vstd's specifications of std::collections::HashMap (insert/get/remove/contains_key/clear/len/iter) plus the assumed specification of HashMap::get_mut in prelude/hashmap_get_mut.rs; obeys_key_model::<u64>() and builds_valid_hashers::<S>() are preconditions (true for u64 keys and std/RandomState-like hashers).",
     "A-range": "machine arithmetic is checked, not idealised: every +,-,*,<<,as is proved free of overflow under the stated input range (non-negative costs, |max_cost| and charged total below 2^60).",
     "A-z3": "Z3 (Verus back end) and CBMC/CaDiCaL (Kani back end) are trusted.",
